@@ -53,6 +53,16 @@ Theorem C10_serve_returns : forall ls, let s := exec good init ls in done s = tr
 Proof. exact serve_returns. Qed.
 Print Assumptions C10_serve_returns.
 
+(* no goroutine serving a session remains: `final` (above) still lets a read pump be on its way out, and says nothing about
+   the readers (Server.handleRead), which Stop does not wait for. After a tearing Stop has returned, in every later state,
+   they end by their own next steps - at most two per session, nothing else needed - and the state is then final with every
+   read pump and every reader gone *)
+Theorem C10_nothing_left_after_stop : forall ls, let s := exec good init ls in tore s = true ->
+  let s' := exec good s (rest_of (length (ss s))) in
+  final s' = true /\ forallb rp_out (ss s') = true /\ forallb hr_out (ss s') = true.
+Proof. exact nothing_left_after_stop. Qed.
+Print Assumptions C10_nothing_left_after_stop.
+
 (* the code as it was, refuted: any API call after Stop, and a second Stop, kill the process *)
 Theorem C10_old_api_after_stop_refuted :
   crashed (exec (mkCfg true false true true true true true true true true true) init [LNewStop; LStop 0; LStop 0; LApi AOpen]) = true.
